@@ -112,6 +112,10 @@ def analyse(ctx, F, sfx):
     vetted_path = os.path.join(os.path.dirname(__file__), 'c01_vetted.json')
     vetted = json.load(open(vetted_path)) if os.path.exists(vetted_path) else {}
     est, writes_some = established_fields(F)
+    orphaned = {}
+    for k_, v_ in vetted.items():
+        if '|' in k_ and k_.split('|', 1)[0] not in F.fns and k_.split('|', 1)[0] not in F.inlined_helpers:
+            orphaned.setdefault(k_.split('|', 1)[1], dict(v_, _fn=k_.split('|', 1)[0]))
 
     r0 = rep.rule('C01-R0' + sfx, 'scope: reply() is the single entry; the signature tables are built by nullary, input-independent initialisers reached only through lazy statics', floor=2)
     for root in sorted(INIT_ROOTS):
@@ -205,10 +209,76 @@ def analyse(ctx, F, sfx):
                     return True, 'the converted value has no bit above bit %d for every value %s of parameter %d (bit provenance)' % (w_ - 1, vals, pi)
         return False, ''
 
+    def loop_var(x):
+        """x is the element of `for v in a..b` / `for v in [c0, c1, ..]` with constant bounds -> its finite domain"""
+        if not (isinstance(x, tuple) and x[0] == 'field' and x[2] == '0' and isinstance(x[1], tuple) and x[1][0] == 'variant' and x[1][2] == 'Some'):
+            return None
+        nx_ = peel(x[1][1], unwraps=False)
+        if not is_call(nx_, r'Iterator>::next$|Iterator::next$|Iterator for std::ops::Range<A>>::next$'):
+            return None
+        rng_ = None
+        for y in walk(nx_):
+            if isinstance(y, tuple) and y[0] == 'agg' and str(y[1]).endswith('ops::Range::Range') and all(const_val(z) is not None for z in y[2]):
+                rng_ = list(range(const_val(y[2][0]), const_val(y[2][1])))
+            if isinstance(y, tuple) and y[0] == 'agg' and y[1] == 'array' and y[2] and all(const_val(z) is not None for z in y[2]):
+                rng_ = [const_val(z) for z in y[2]]
+        return rng_ if rng_ is not None and 0 < len(rng_) <= 64 else None
+
+    def loop_pinned(s):
+        """the operands depend, besides constants and opaque inputs, on one loop variable over a constant range: the check is
+        evaluated for each of its values (subtraction does not underflow, shift amount below the width, a converted value
+        has no bit above the target width)"""
+        f_, bi_ = s['f'], s['bi']
+        exprs = list(s.get('ops') or []) + list(s.get('args') or []) + ([s['cond']] if s.get('cond') is not None else [])
+        lvs = {}
+        for e_ in exprs:
+            for x in walk(e_):
+                d_ = loop_var(x)
+                if d_ is not None:
+                    lvs[x] = d_
+        if len(lvs) != 1:
+            return False, ''
+        (LV, dom_), = lvs.items()
+
+        def at(e_, v_):
+            return rewrite(e_, lambda x: ('const', v_, None, 'usize') if x == LV else None)
+        t_ = f_.blocks[bi_]['term']
+        if t_['k'] == 'assert':
+            ak = s['kind'].split(':', 1)[1]
+            for v_ in dom_:
+                try:
+                    if 'Sub' in ak and len(s['ops']) == 2:
+                        okv = eval_expr(at(s['ops'][0], v_), lambda x: None) >= eval_expr(at(s['ops'][1], v_), lambda x: None)
+                    elif ('Shl' in ak or 'Shr' in ak) and s.get('cond') is not None:
+                        okv = bool(eval_expr(at(s['cond'], v_), lambda x: None) & 1) == bool(t_['expected'])
+                    else:
+                        return False, ''
+                except (KeyError, TypeError):
+                    return False, ''
+                if not okv:
+                    return False, ''
+            return True, 'holds for every value %s of the loop variable (a loop over a constant range)' % dom_
+        if s['kind'] in ('unwrap', 'expect') or s['kind'].startswith('unwrap'):
+            from vlib.bits import BitEval
+            a0 = s['args'][0] if s.get('args') else None
+            inner = peel(a0, unwraps=False) if a0 is not None else None
+            if is_call(inner, r'TryInto::try_into$|TryFrom::try_from$'):
+                dst = t_['dest']
+                w_ = INT_W.get(f_.locals[dst['l']]['ty']) if not dst['p'] else None
+                if w_:
+                    for v_ in dom_:
+                        b_ = BitEval(lambda x: ('in%d' % (hash(x) & 0xffff), 64) if isinstance(x, tuple) and x[0] in ('param', 'entry') else None).bits(at(inner[2][0], v_))
+                        if b_ is None or any(x != 0 for x in b_[w_:]):
+                            return False, ''
+                    return True, 'the converted value has no bit above bit %d for every value %s of the loop variable (bit provenance)' % (w_ - 1, dom_)
+        return False, ''
+
     def vet(s, key, rid):
         okp_, whyp_ = (False, '')
         try:
             okp_, whyp_ = param_pinned(s)
+            if not okp_:
+                okp_, whyp_ = loop_pinned(s)
         except Exception:
             okp_ = False
         if okp_:
@@ -217,6 +287,13 @@ def analyse(ctx, F, sfx):
             return
         used_keys[key] += 1
         v = vetted.get(key)
+        if v is None and '|' in key:
+            # the reviewed site moved with its code: its function no longer exists (a helper inlined into its callers by hand) and the
+            # same expression - same kind, same operands - now sits in another function; the review reason is about the operands
+            fn_, tail_ = key.split('|', 1)
+            ov = orphaned.get(tail_)
+            if ov is not None:
+                v = dict(ov, reason='%s (site moved from %s, which no longer exists)' % (ov['reason'], ov['_fn']))
         if v and used_keys[key] <= v.get('count', 1):
             assumed[v.get('class', 'review')] += 1
             rep.ok(rid, key + ('#%d' % used_keys[key] if used_keys[key] > 1 else ''), 'assumed by review [%s]: %s' % (v.get('class'), v['reason']), s['loc'])
